@@ -1,5 +1,6 @@
-from . import dchecks
+from . import dchecks, rchecks
 
 CHECKS = {}
 REPLAYERS = {}
 CHECKS.update(dchecks.CHECKS)
+CHECKS.update(rchecks.CHECKS)
